@@ -31,6 +31,8 @@ def generate(tier, seed):
     ncloud = 600 if tier == "quick" else 20000
     for k in range(ncloud):
         cases.append({"kind": "cloud", "seed": "%d:cloud:%d" % (seed, k), "cost": 2})
+    for k in range(150 if tier == "quick" else 5000):
+        cases.append({"kind": "written", "seed": "%d:written:%d" % (seed, k), "cost": 3})
     reps = 1 if tier == "quick" else 8
     for rep in range(reps):
         for d in DIRS:
@@ -100,6 +102,73 @@ def cloud(rng):
         atoms.append(mk_atom(rng.choice(elems), o[0] + rng.randrange(0, side + 1),
                              o[1] + rng.randrange(0, side + 1), o[2] + rng.randrange(0, side + 1), idx=i))
     return atoms, {"n": n, "density": round(dens, 3), "origin": origin_kind, "mix": mix}
+
+
+# spellings of the atom-name columns 13-16: the element symbol is right-justified in 13-14, and a hydrogen
+# name that fills all four columns starts in 13 (new style HD11, old style 1HD1)
+SPELLINGS = {
+    "H": [" H  ", " H1 ", " HA ", "1HB ", " HB2", "HD11", "1HD1", "2HH1", "3HD2", " HN ", "1H5'", "HH12", "H5''", "2HG1", " HE2"],
+    "C": [" C  ", " CA ", " C12", " CD1", " C1'"], "N": [" N  ", " NZ ", " NH1", " N1 "], "O": [" O  ", " OXT", " OP1", " O5'"],
+    "S": [" SG ", " SD ", " S1 "], "F": [" F1 ", " F  "], "P": [" P  ", " PA "], "Cl": ["CL  ", "CL1 "], "Zn": ["ZN  "],
+    "Se": ["SE  "], "Si": ["SI  ", "SI1 "], "Sr": ["SR  "], "Br": ["BR  ", "BR2 "], "Na": ["NA  "], "Fe": ["FE  ", "FE2 "],
+}
+
+
+def written_case(rng, viol, counts, classes):
+    """A cloud written as HETATM records and read back through the package's own reader, with and without
+    --keep-protons: the bonds must be those of the rule applied with the element the name columns spell."""
+    import os
+    import propka.bonds
+    import propka.input
+    from .. import pdbio, util
+    from ..monitors import bonds
+    atoms, desc = cloud(rng)
+    atoms = [a for a in atoms if max(abs(a.x), abs(a.y), abs(a.z)) < 9999]
+    recs = []
+    for i, a in enumerate(atoms):
+        nm = rng.choice(SPELLINGS[a.element])
+        tag = "HETATM" if rng.random() < 0.7 else "ATOM  "
+        tail = rng.choice(("  1.00  0.00", "  1.00  0.00          %2s" % a.element.upper(), ""))
+        recs.append(pdbio.new_atom(tag, i + 1, nm, "UNK", "A", i % 9999 + 1, round(a.x * 1000), round(a.y * 1000),
+                                   round(a.z * 1000), tail=tail))
+        a.name = nm.strip()
+    path = os.path.join(util.worker_tmp(), "written.pdb")
+    with open(path, "w") as fh:
+        fh.write(pdbio.dump(recs))
+    desc["kind"] = "written"
+    for keep in (True, False):
+        want = [a for a in atoms if keep or a.element != "H"]
+        got = [at for _c, at in propka.input.get_atom_lines_from_pdb(path, ignore_residues=(), keep_protons=keep)]
+        counts["written_atoms_read"] = counts.get("written_atoms_read", 0) + len(got)
+        if len(got) != len(want) or any((g.name, g.x, g.y, g.z) != (w.name, w.x, w.y, w.z) for g, w in zip(got, want)):
+            extra = [g.name for g in got if g.name not in {w.name for w in want}][:3]
+            viol.append({"cls": "atoms-read-differ", "msg": "keep_protons=%s: %d atoms written (%d hydrogens), %d read back; e.g. %r" % (
+                keep, len(atoms), sum(1 for a in atoms if a.element == "H"), len(got), extra)})
+            continue
+        propka.bonds.BondMaker().find_bonds_for_atoms_using_boxes(got)
+        # reference: the rule with the elements that were written
+        must, skip = bonds.reference_pairs(want)
+        idx = {id(g): i for i, g in enumerate(got)}
+        have = set()
+        for i, g in enumerate(got):
+            for b in g.bonded_atoms:
+                j = idx.get(id(b))
+                if j is not None and i < j:
+                    have.add((i, j))
+        counts["written_reference_bonds"] = counts.get("written_reference_bonds", 0) + len(must)
+        wrong = [(i, j) for (i, j) in (must ^ have) if (i, j) not in skip]
+        if wrong:
+            i, j = wrong[0]
+            viol.append({"cls": "bonds-differ-from-the-rule-for-the-written-elements",
+                         "msg": "keep_protons=%s: %s %r - %s %r at %.4f A: %s; %d pairs differ" % (
+                             keep, want[i].element, want[i].name, want[j].element, want[j].name,
+                             math.dist((want[i].x, want[i].y, want[i].z), (want[j].x, want[j].y, want[j].z)),
+                             "bonded" if (i, j) in have else "not bonded", len(wrong))})
+    if any(len(a.name) == 4 and a.name[0].isdigit() for a in atoms):
+        classes.append("written:old-style-hydrogen-names")
+    classes.append("written")
+    desc["atoms"] = len(atoms)
+    return desc
 
 
 def directed(rng, d):
@@ -209,6 +278,8 @@ def run_case(case, tier):
         counts["exact_tie_pairs"] = len(atoms) // 2
         sample = {"kind": "ties", "pairs": len(atoms) // 2, "bonds": nb}
         classes.append("exact-ties")
+    elif kind == "written":
+        sample = written_case(rng, viol, counts, classes)
     elif kind == "cys":
         sample = cys_case(rng, viol, counts, case)
     else:
